@@ -42,6 +42,8 @@ package transport
 //@   ensures[C08] chunk: err == nil ==> n == len(p) && 0 <= n && n <= 4096
 // bytes taken from the body are never returned together with an error (the caller drops what comes with an error)
 //@   ensures[C06,C08] noDataWithError: err != nil ==> n == 0
+// and every byte the body reader delivered is handed out, in order (it is consumed: nobody else will see it)
+//@   local ensures[C06,C08] delivered: n == #ioReadN && len(p) == n && (forall i int :: 0 <= i && i < n ==> p[i] == buf[i])
 //@   nopanic[C10]
 
 //@ func (*WSPKT).ReadPacket
